@@ -144,10 +144,23 @@ pub fn cut_pattern_pref(
         // the run must be a proper part of its parent: a run covering the parent's whole span
         // would re-parse as a hole standing for the parent itself (not a run of p's children)
         if !(first.start_byte() == p.start_byte() && last.end_byte() == p.end_byte()) {
+          // with `prefer`, a separator that trails the last named sibling (`foo(a, b,)`) belongs to
+          // the abstracted text: the run then ends in an anonymous token
+          let mut end = last.end_byte() as usize;
+          if prefer >= 1 {
+            let kids = tsutil::children(p);
+            if let Some(i) = kids.iter().position(|c| c.id() == last.id()) {
+              if let (Some(sep), Some(_closing)) = (kids.get(i + 1), kids.get(i + 2)) {
+                if !sep.is_named() && matches!(tsutil::text(src, sep), "," | ";") {
+                  end = sep.end_byte() as usize;
+                }
+              }
+            }
+          }
           run = Some(Run {
             name: "W".into(),
             start: first.start_byte() as usize,
-            end: last.end_byte() as usize,
+            end,
             named: named[k..]
               .iter()
               .map(|c| (c.start_byte() as usize, c.end_byte() as usize))
